@@ -144,7 +144,7 @@ func gen(r *hx.Rand, tier string) []json.RawMessage {
 	}
 
 	// ---- tools on random recorded trees
-	nt := 9
+	nt := 7
 	if thorough {
 		nt = 300
 	}
@@ -199,8 +199,10 @@ func gen(r *hx.Rand, tier string) []json.RawMessage {
 		{K: []byte("m/one.go"), D: []byte("only")}, {K: []byte("m/nl.go"), D: []byte("\n")}, {K: []byte("m/empty.go"), D: []byte("")}}
 	for i, w := range [][2]int{{0, 0}, {1, 0}, {0, 5}, {199, 0}, {200, 201}, {1, 400}, {1, 401}, {30, 440}, {460, 0}, {461, 0}, {459, 1}, {-5, -5},
 		{50, 20}, {300, 300}, {99, 100}, {9, 10}, {399, 1001}} {
-		add(input{Kind: "read", FS: big, P: []byte("m/long.go"), Start: w[0], End: w[1]})
-		if i < 5 || thorough {
+		if i%2 == 0 || thorough {
+			add(input{Kind: "read", FS: big, P: []byte("m/long.go"), Start: w[0], End: w[1]})
+		}
+		if i < 2 || thorough {
 			add(input{Kind: "read", FS: big, P: []byte("m/wide.go"), Start: w[0], End: w[1]})
 		}
 	}
